@@ -20,3 +20,5 @@ def run(prog, rep):
     _rv.run_indata(prog, rep)
     from ..rules import r_unit as _ru
     _ru.run_static_memo(prog, rep)
+    from ..rules import r_io as _rio2
+    _rio2.run_swapped(prog, rep)
